@@ -91,7 +91,8 @@ func NDStream(name string, L, tdom, late, tz int) (msgs []vx.Msg, recs, net []ex
 // (KeyEventTimeIndex -1; trigger sets containing ON WATERMARK are skipped, the planner rejects
 // them); AGGSET / VDOM as in VerifC03GroupBy; SIMPLE 1 = also run SimpleGroupBy on the same stream
 // and compare the two consolidated outputs; TZ 1 = event times forked over Local / UTC
-// representations of the instant; TCONC 1 = instants forked concretely (same domain).
+// representations of the instant; WMCHECK 1 = node-level C17 assertions at every forwarded
+// watermark (trigger sets containing ON WATERMARK, LATE=0); TCONC 1 = instants forked concretely (same domain).
 func VerifC16Triggers() {
 	L := zzverif.Param("L")
 	mask := zzverif.Param("TRIG")
@@ -134,6 +135,48 @@ func VerifC16Triggers() {
 	out := sink.Records()
 	spec.AssertMatches(net, out, "final")
 	zzverif.Assert(validChangelog(out), "output-changelog-valid")
+
+	// C17, node level (ON WATERMARK): when a watermark W is forwarded, the output emitted so far
+	// already holds the current result of every key whose event time is <= W (with no late data
+	// that is the key's final reference row, because the group key contains the event time), holds
+	// nothing else for such keys, and - with ON WATERMARK as the only trigger - nothing beyond W.
+	if zzverif.Param("WMCHECK") == 1 && mask&TrigWatermark != 0 && byTime == 1 && late == 0 {
+		refs := spec.refRows(net)
+		for p, m := range sink.Out {
+			if m.Kind != vx.MsgWatermark {
+				continue
+			}
+			w := m.Watermark.Unix()
+			var prefix []execution.Record
+			for _, q := range sink.Out[:p] {
+				if q.Kind == vx.MsgRecord {
+					prefix = append(prefix, q.Rec)
+				}
+			}
+			zzverif.Reach("watermark-forwarded")
+			ok := true
+			for g := range net {
+				due := net[g].Values[0].Time.Unix() <= w
+				ok = zzverif.And(ok, zzverif.Implies(due, count(prefix, refs[g]) == 1))
+			}
+			zzverif.Assert(ok, "at-watermark-result-of-every-due-key-present")
+			ok = true
+			notBeyond := true
+			for _, o := range prefix {
+				due := o.Values[0].Time.Unix() <= w
+				match := false
+				for g := range net {
+					match = zzverif.Or(match, rowEq(o.Values, refs[g]))
+				}
+				ok = zzverif.And(ok, zzverif.Implies(due, count(prefix, o.Values) == zzverif.IteInt(match, 1, 0)))
+				notBeyond = zzverif.And(notBeyond, due)
+			}
+			zzverif.Assert(ok, "at-watermark-no-stale-row-of-a-due-key")
+			if mask == TrigWatermark {
+				zzverif.Assert(notBeyond, "no-key-beyond-watermark-emitted")
+			}
+		}
+	}
 
 	if zzverif.Param("SIMPLE") == 1 {
 		sink2 := &vx.Sink{}
